@@ -101,8 +101,8 @@ class Picks:
                 elif mode == "longest":
                     pb = cand - longer
                 else:
-                    if br.wb:
-                        raise Unsupported("lazy match with \\b")
+                    if br.wb or br.ahead is not None:
+                        raise Unsupported("lazy match with \\b / lookahead")
                     shorter = dfa.cat(L, dfa.plus(DFA.sym(k, al.all())), DFA.sym(k, [al.mark]), allw)
                     pb = cand - shorter
                 pk = pk | pb
